@@ -190,6 +190,7 @@ var c08Seeds = []string{
 	// known left-over shapes (recorded defect #19) and their repaired relatives
 	"5\n{'a':1", "[x,2]\n[x,2]", "x=2; [x,2]\n[x,2]", "5\n'abc", "5\n`a{1}", "x=1; x || [", "x=0; x || [", "1 || (", "1 && (", "1 ? 2 : (", "1 ? (", "dct = b(d)a(3)", "1 + [", "1 + {", "f(1, [",
 	"a[1", "a[1:", "a.b(", "if 1 { 2 } else", "if 1 { 2 } el", "while 1 { 1 } x", "1 2", "1 d", "2d6k(", "2a5m(", "2c5m(", "b(", "d(", "`a{1", "`a{% 1", "[1,2", "[1..", "{'a':", "{'a':1,", "{a:",
+	"x = 1 ?", "a = b = 1 ?", "a.b = 1 ?", "a[0] = 1 ?", "this.x = 3 ?", "x = 2d6 ? ", "^st力量=60 ?", "&x = 1 ?", "x = 1 ? 2, 3 ?", "x = y ||", "x = 1 <", "a[0] = 1 +", "this.x = [1,2] [",
 	"func f() { return 1", "func f(", "x = ", "&x = ", "&x.y = ", "this.x = ", "a[0] = ", "a[0:1] = ", "x ? 1, y ?", "x ? 1 :", "x || ", "x && ", "-", "1 +", "1 ?? ",
 	"5\n[1,", "5\n[1..", "5\n(1", "5\nf(1", "5\nx[1", "5\nx.y(", "5\n2d6k(", "5\n-", "5\n1 ? 2 : [", "5\n1 ? 2, 3 ? [", "5\nx || y || [", "5\nif", "5\nwhile", "5\nfunc", "5\nreturn [",
 	// recorded compile-level findings (KF-C08-*): must stay attributed, never silently disappear from the corpus
@@ -641,6 +642,7 @@ var c08Tails = []string{
 	" [", " {'a':1", " 'abc", "\n`a{1}", " || [", " && (", " ? 1", " ? 1 : [", " (", ")", " d", " 2d", " if", " while 1 {", "\n{'a':1", "\n[x,2", "\n'abc", "\n`a{1", "\n(1",
 	"\nf(1,", "\nx[1", "\nx.y(", "\n2d6k(", "\n-", " +", " *", " ?? ", " ||", " &&", " =", " = ", ".", "..", ",", ":", " else", " else {", "}", "]", "%}", "{%", "\x1e", "`", "'", `"`,
 	"\nif 1 {", "\nwhile 1 { break", "\nfunc f() {", "\nreturn [", "\n1 ? 2, 3 ? [", "\nx || y || [", "\nb(", "\n2a5m(", "\n2c5m(", "\nd(", "\n^st", " // #EnableDice wod", "\n[1..",
+	" ?", "?", " ? ", " ?\n", " ? 2,", " ? 2, 3 ?", " :", " ? :", " ||", " &&", " ??", " <", " ==", " **", " [", " [1:", " [1:2", ".", " .x =", "[0] =", " = ",
 	"\n&x = [", "\n&x.y = [", "\nthis.x = [", "\na[0] = [", "\na[0:1] = [", "\n`{% if 1 {", "\n`{% while 1 { break", "\n{a:", "\n{1:[", "\n[[", "\n((", "\n-[", "\nx=[", "\n1+[", "\nf(g(",
 }
 
